@@ -21,6 +21,9 @@ def calls_to(f, keys, minimum=1, what=None):
 
 
 def arg_slice(f, term, idx, **kw):
+    """slice of the idx-th argument of a call terminator, as read at the call."""
+    if "at" not in kw and "_bb" in term:
+        kw["at"] = (term["_bb"], f.INF)
     return f.slice_of_operand(term["a"][idx], **kw)
 
 
@@ -151,7 +154,15 @@ def ok_payload_slice(f):
                 pl = op_place(o)
                 if pl:
                     locs.append(pl[0])
-    sl = f.backward_slice(locs)
+    sl = {"locals": set(), "calls": set(), "places": [], "consts": [], "args": set(), "closures": set(), "aggs": []}
+    for e in f.exits():
+        if e["kind"] == "ok":
+            st = f.blocks[e["bb"]]["s"][e["si"]]
+            one = f.backward_slice([op_local(o) for o in st["rv"][2] if op_local(o) is not None], at=(e["bb"], e["si"]))
+            for k in ("locals", "calls", "args", "closures"):
+                sl[k] |= one[k]
+            for k in ("places", "consts", "aggs"):
+                sl[k] += one[k]
     for o in ops:
         pl = op_place(o)
         if pl:
